@@ -1054,16 +1054,23 @@ def parse_tree_to_objgraph(
                     scope_provider.load_models(model, encoding=encoding)
 
             # Load all imported models based on the maker
-            # `ModelLoader` directly attached to model references
-            # (e.g. in case of RREL expressions defined in the grammar):
-            for crossref in parser._crossrefs:
-                crossref = crossref[2]
-                if crossref.scope_provider is not None:
-                    from textx.scoping import ModelLoader
+            # `ModelLoader` attached to the reference attributes of the
+            # meta-model (RREL expressions defined in the grammar). As with
+            # registered providers, a model loads what it imports whether
+            # or not it holds such a reference itself.
+            from textx.scoping import ModelLoader
 
-                    scope_provider = crossref.scope_provider
-                    if isinstance(scope_provider, ModelLoader):
-                        scope_provider.load_models(model, encoding=encoding)
+            grammar_loaders = []
+            for namespace in metamodel.namespaces.values():
+                for cls in namespace.values():
+                    for attr in getattr(cls, "_tx_attrs", {}).values():
+                        scope_provider = getattr(attr, "scope_provider", None)
+                        if isinstance(scope_provider, ModelLoader) and not any(
+                            scope_provider is x for x in grammar_loaders
+                        ):
+                            grammar_loaders.append(scope_provider)
+            for scope_provider in grammar_loaders:
+                scope_provider.load_models(model, encoding=encoding)
 
             model._tx_reference_resolver = ReferenceResolver(
                 parser, model, pos_crossref_list
